@@ -151,4 +151,185 @@ theorem gmxGo_rec (c : Cfg) (all : List Frame) :
 theorem gmxRun_rec (c : Cfg) (frames : List Frame) : GmxRec c frames (gmxRun c frames).es :=
   gmxGo_rec c frames frames 0 [] false none (by intro k h; simp at h) rfl (by simp)
 
+
+/-! ### GROMACS at tick level (`gmxExt`): every schedule -/
+
+def GInv (c : Cfg) (frames : List Frame) (s : XState) : Prop :=
+  GmxRec c frames s.es ∧ s.stepNr = s.es.length ∧ s.rp = s.stepNr
+
+theorem GmxRec.snoc {c : Cfg} {frames : List Frame} {es : List Entry} {f : Frame}
+    (h : GmxRec c frames es) (hf : frames[es.length]? = some f) :
+    GmxRec c frames (es ++ [gmxEntry c es.length f]) := by
+  intro k hk
+  by_cases hlt : k < es.length
+  · obtain ⟨f', h1, h2⟩ := h k hlt
+    exact ⟨f', h1, by rw [List.getElem_append_left hlt]; exact h2⟩
+  · have hk' : k = es.length := by simp at hk; omega
+    subst hk'
+    exact ⟨f, hf, by simp⟩
+
+theorem gmxConsume_spec (c : Cfg) (frames : List Frame) (s s' : XState) (f : Frame) (stop : Bool)
+    (h : GInv c frames s) (hf : frames[s.rp]? = some f) (hc : gmxConsume c s f = some (s', stop)) :
+    GmxRec c frames s'.es ∧ (stop = false → GInv c frames s' ∧ s'.rp = s.rp + 1) := by
+  obtain ⟨h1, h2, h3⟩ := h
+  simp only [gmxConsume] at hc
+  cases hrec : gmxRecord c s.es s.stepNr f with
+  | none => simp [hrec] at hc
+  | some pr =>
+    obtain ⟨es', r⟩ := pr
+    simp only [hrec] at hc
+    have hsn : GmxRec c frames (s.es ++ [gmxEntry c s.stepNr f]) := by
+      rw [h2]; exact GmxRec.snoc h1 (by rw [← h2, ← h3]; exact hf)
+    by_cases hs : r.stop = true
+    · simp only [hs, if_true, Option.some.injEq, Prod.mk.injEq] at hc
+      obtain ⟨e1, e2⟩ := hc
+      subst e1 e2
+      refine ⟨?_, by intro hh; cases hh⟩
+      rcases gmxRecord_es _ _ _ _ _ _ hrec with ⟨e, _⟩ | e
+      · simp only [e]; exact h1
+      · simp only [e]; exact hsn
+    · simp only [hs, Bool.false_eq_true, if_false, Option.some.injEq, Prod.mk.injEq] at hc
+      obtain ⟨e1, e2⟩ := hc
+      subst e1 e2
+      rcases gmxRecord_es _ _ _ _ _ _ hrec with ⟨_, hst⟩ | e
+      · exact absurd hst hs
+      · refine ⟨by simp only [e]; exact hsn, fun _ => ⟨⟨by simp only [e]; exact hsn, ?_, ?_⟩, rfl⟩⟩
+        · simp [e, h2]
+        · simp [h3]
+
+theorem gmxDrain_rec (c : Cfg) (frames : List Frame) :
+    ∀ (L : List Frame) (s : XState), GInv c frames s → L <+: frames.drop s.rp →
+      GmxRec c frames (gmxDrain c L s).1.es := by
+  intro L
+  induction L with
+  | nil => intro s h _; simpa [gmxDrain] using h.1
+  | cons f rest ih =>
+    intro s h hL
+    obtain ⟨hf, hrest⟩ := cons_prefix_drop _ _ _ _ hL
+    simp only [gmxDrain]
+    cases hc : gmxConsume c s f with
+    | none => exact h.1
+    | some pr =>
+      obtain ⟨s', stop⟩ := pr
+      obtain ⟨g1, g2⟩ := gmxConsume_spec c frames s s' f stop h hf hc
+      simp only
+      cases stop with
+      | true => simpa using g1
+      | false =>
+        simp only [Bool.false_eq_true, if_false]
+        obtain ⟨g3, g4⟩ := g2 rfl
+        exact ih s' g3 (by rw [g4]; exact hrest)
+
+theorem GInv.poll {c : Cfg} {frames : List Frame} {s : XState} (sched : Sched) (h : GInv c frames s) :
+    GInv c frames (poll sched s).1 := by
+  unfold EngineLoops.poll
+  simp only
+  split
+  · exact h
+  · split <;> exact h
+
+theorem take_drop_prefix {α : Type} (frames : List α) (a b : Nat) : (frames.take a).drop b <+: frames.drop b := by
+  rw [List.drop_take]
+  exact List.take_prefix _ _
+
+theorem ite_pick {α : Type} (P : α → Prop) (p : Prop) [Decidable p] (a b : α) (ha : P a) (hb : P b) :
+    P (if p then a else b) := by
+  split <;> assumption
+
+theorem gmxFrames_rec (c : Cfg) (sched : Sched) (code : Int) (need0 : Nat) (frames : List Frame) :
+    ∀ (fuel : Nat) (s : XState), GInv c frames s → GmxRec c frames (gmxFrames c sched code need0 frames fuel s).1.es := by
+  intro fuel
+  induction fuel with
+  | zero => intro s h; simpa [gmxFrames] using h.1
+  | succ fuel ih =>
+    intro s h
+    simp only [gmxFrames]
+    have hp := GInv.poll sched h
+    generalize EngineLoops.poll sched s = ps at hp
+    obtain ⟨s1, alive⟩ := ps
+    simp only at hp ⊢
+    split
+    · split
+      · exact hp.1
+      · exact gmxDrain_rec c frames _ s1 hp (take_drop_prefix _ _ _)
+    · have hT := ih _ (show GInv c frames (tick sched s1) from hp)
+      cases hf : frames[s1.rp]? with
+      | none =>
+        simp only
+        exact ite_pick (fun (x : XState × Option Err) => GmxRec c frames x.1.es) _ _ _ (hp.1) hT
+      | some f =>
+        simp only
+        cases hc : gmxConsume c s1 f with
+        | none =>
+          simp only
+          exact ite_pick (fun (x : XState × Option Err) => GmxRec c frames x.1.es) _ _ _ (hp.1) hT
+        | some pr =>
+          obtain ⟨s', stop⟩ := pr
+          obtain ⟨g1, g2⟩ := gmxConsume_spec c frames s1 s' f stop hp hf hc
+          simp only
+          cases stop with
+          | true =>
+            simp only [if_true]
+            exact ite_pick (fun (x : XState × Option Err) => GmxRec c frames x.1.es) _ _ _ (g1) hT
+          | false =>
+            simp only [Bool.false_eq_true, if_false]
+            exact ite_pick (fun (x : XState × Option Err) => GmxRec c frames x.1.es) _ _ _ (ih s' (g2 rfl).1) hT
+
+theorem gmxWait_inv (c : Cfg) (frames : List Frame) (sched : Sched) (code : Int) :
+    ∀ (fuel : Nat) (s s' : XState) (e : Option Err), GInv c frames s → gmxWait sched code fuel s = some (s', e) →
+      GInv c frames s' := by
+  intro fuel
+  induction fuel with
+  | zero => intro s s' e _ h; simp [gmxWait] at h
+  | succ fuel ih =>
+    intro s s' e hi h
+    simp only [gmxWait] at h
+    split at h
+    · simp only [Option.some.injEq, Prod.mk.injEq] at h; obtain ⟨h, _⟩ := h; subst h; exact hi
+    · have hp := GInv.poll sched (show GInv c frames (tick sched s) from hi)
+      generalize EngineLoops.poll sched (tick sched s) = ps at hp h
+      obtain ⟨s1, alive⟩ := ps
+      simp only at hp h
+      split at h
+      · exact ih s1 s' e hp h
+      · split at h <;>
+        · simp only [Option.some.injEq, Prod.mk.injEq] at h; obtain ⟨h, _⟩ := h; subst h; exact hp
+
+/-- **GROMACS through `GromacsRunner`, every schedule**: frames in order, each once, own coordinates and box;
+    velocity as `gmxVelSeen` says. -/
+theorem gmxExt_rec (c : Cfg) (sched : Sched) (code : Int) (need0 : Nat) (frames : List Frame) (fuel : Nat) :
+    GmxRec c frames (gmxExt c sched code need0 frames fuel).es := by
+  have h0 : GInv c frames XState.init := ⟨by intro k h; simp [XState.init] at h, rfl, rfl⟩
+  unfold gmxExt
+  cases hw1 : gmxWait sched code fuel XState.init with
+  | none => exact h0.1
+  | some p1 =>
+    obtain ⟨s1, e1⟩ := p1
+    have hi1 := gmxWait_inv c frames sched code fuel _ _ _ h0 hw1
+    cases e1 with
+    | some e => exact hi1.1
+    | none =>
+      simp only
+      cases hw2 : gmxWait sched code fuel s1 with
+      | none => exact hi1.1
+      | some p2 =>
+        obtain ⟨s2, e2⟩ := p2
+        have hi2 := gmxWait_inv c frames sched code fuel _ _ _ hi1 hw2
+        cases e2 with
+        | some e => exact hi2.1
+        | none =>
+          simp only
+          have hF : GmxRec c frames
+              (if (s1.cur.file && s2.cur.file) = true then gmxFrames c sched code need0 frames fuel s2
+                else (s2, some Err.attr)).1.es := by
+            split
+            · exact gmxFrames_rec c sched code need0 frames fuel s2 hi2
+            · exact hi2.1
+          generalize (if (s1.cur.file && s2.cur.file) = true then gmxFrames c sched code need0 frames fuel s2
+                else (s2, some Err.attr)) = se at hF
+          obtain ⟨s3, e⟩ := se
+          cases e with
+          | none => exact hF
+          | some e => cases e <;> exact hF
+
 end Infretis.EngineLoops
